@@ -7,11 +7,13 @@
 //!        | S|MAP|X                     SegmentMap::normalize(X) through AvarTable::segment_maps() (raw 16.16 in/out)
 //!   AXES   = min,def,max[,tag] separated by spaces (raw 16.16 i32; tag u32, default 'wght'+i)
 //!   AVAR   = `-` (no avar) or maps separated by spaces, each `f:t,f:t,...` (raw 2.14 i16) or `_` (empty map)
-//!   COORDS = c1,c2,... (raw 16.16 i32) or `-`
+//!   COORDS = c1,c2,... (raw 16.16 i32) or `-`, or `@k` (F, I): the coordinates of the table's own named instance k
+//!            (FvarTable::instances().nth(k)); no such instance -> err:MissingValue
 //!   SHAPE  = major,off,asz,dcount,icnt,isz,trail : header majorVersion, axesArrayOffset, axisSize,
 //!            axisCount = #AXES + dcount, instanceCount, instanceSize; the records are written at max(off,16),
-//!            max(asz,20) bytes apart (record, then filler), followed by icnt*isz bytes of instance records
-//!            (filler) and `trail` more bytes (negative: that many bytes cut off the end)
+//!            max(asz,20) bytes apart (record, then filler), followed by icnt instance records of exactly isz bytes
+//!            (name id, flags, per axis one of min / default / max / midpoint, filler; cut short when isz is too
+//!            small) and `trail` more bytes (negative: that many bytes cut off the end)
 //! output = ok:v1,v2,... (raw 2.14; S: one raw 16.16 value) | err:E | panic
 use allsorts::binary::read::ReadScope;
 use allsorts::tables::variable_fonts::avar::AvarTable;
@@ -88,7 +90,25 @@ pub fn fvar_bytes_shape(sh: &Shape, axes: &[Axis]) -> Vec<u8> {
         be16(&mut v, 256 + i as u16);
         pad(&mut v, i as i64, sh.asz - 20);
     }
-    pad(&mut v, 7, sh.icnt * sh.isz);
+    for i in 0..sh.icnt.max(0) {
+        // instance record i: subfamilyNameID, flags, one coordinate per axis (min / default / max / midpoint,
+        // rotating), filler; always exactly instanceSize bytes
+        let mut r = vec![];
+        be16(&mut r, (300 + i) as u16);
+        be16(&mut r, 0);
+        for (j, (mn, df, mx, _)) in axes.iter().enumerate() {
+            let c = match (i + j as i64) % 4 {
+                0 => *mn,
+                1 => *df,
+                2 => *mx,
+                _ => (*mn as i64 + *mx as i64).div_euclid(2) as i32,
+            };
+            be32(&mut r, c as u32);
+        }
+        pad(&mut r, i, sh.isz - 4 - 4 * axes.len() as i64);
+        r.truncate(sh.isz.max(0) as usize);
+        v.extend_from_slice(&r);
+    }
     if sh.trail >= 0 {
         pad(&mut v, 3, sh.trail);
     } else {
@@ -148,8 +168,13 @@ fn parse_avar(s: &str) -> Option<Vec<Vec<(i16, i16)>>> {
     Some(s.split(' ').filter(|x| !x.is_empty()).map(parse_map).collect())
 }
 
+/// `@k`: the user tuple is named instance k of the fvar table itself
+fn named_instance(s: &str) -> Option<usize> {
+    s.strip_prefix('@').map(|k| k.parse().unwrap())
+}
+
 fn parse_coords(s: &str) -> Vec<i32> {
-    if s.is_empty() || s == "-" {
+    if s.is_empty() || s == "-" || s.starts_with('@') {
         vec![]
     } else {
         s.split(',').map(|x| x.parse().unwrap()).collect()
@@ -161,7 +186,7 @@ fn tuple_str(t: &[F2Dot14]) -> String {
 }
 
 /// FvarTable::normalize on the given fvar (and avar) bytes
-fn run_normalize(fb: &[u8], ab: Option<&[u8]>, coords: &[i32]) -> String {
+fn run_normalize(fb: &[u8], ab: Option<&[u8]>, coords: &[i32], named: Option<usize>) -> String {
     let fvar = match ReadScope::new(fb).read::<FvarTable<'_>>() {
         Ok(f) => f,
         Err(e) => return format!("err:{}", perr(&e)),
@@ -173,10 +198,30 @@ fn run_normalize(fb: &[u8], ab: Option<&[u8]>, coords: &[i32]) -> String {
             Err(e) => return format!("err:avar-{}", perr(&e)),
         },
     };
-    match fvar.normalize(coords.iter().map(|c| Fixed::from_raw(*c)), avar_t.as_ref()) {
+    let res = match named {
+        None => fvar.normalize(coords.iter().map(|c| Fixed::from_raw(*c)), avar_t.as_ref()),
+        // the record's own coordinate array is the user tuple (a ReadArrayIter, not a slice iterator)
+        Some(k) => match fvar.instances().nth(k) {
+            None => return "err:MissingValue".to_string(),
+            Some(Err(e)) => return format!("err:{}", perr(&e)),
+            Some(Ok(inst)) => fvar.normalize(inst.coordinates.iter(), avar_t.as_ref()),
+        },
+    };
+    match res {
         Ok(t) => tuple_str(&t),
         Err(e) => format!("err:{}", perr(&e)),
     }
+}
+
+/// the coordinates of named instance k, for variations::instance
+fn named_coords(fb: &[u8], k: usize) -> Result<Vec<i32>, String> {
+    let fvar = ReadScope::new(fb).read::<FvarTable<'_>>().map_err(|e| format!("err:{}", perr(&e)))?;
+    let r = match fvar.instances().nth(k) {
+        None => Err("err:MissingValue".to_string()),
+        Some(Err(e)) => Err(format!("err:{}", perr(&e))),
+        Some(Ok(inst)) => Ok(inst.coordinates.iter().map(|c| c.raw_value()).collect()),
+    };
+    r
 }
 
 /// variations::instance on a complete TrueType variable font whose fvar (and avar) are the given bytes
@@ -238,12 +283,20 @@ pub fn run(input: &str) -> String {
             let axes = parse_axes(rest[0]);
             let avar = parse_avar(rest[1]);
             let coords = parse_coords(rest[2]);
+            let named = named_instance(rest[2]);
             let fb = fvar_bytes_shape(&sh, &axes);
             let ab = avar.as_ref().map(|m| avar_bytes(m));
             if kind == "I" {
+                let coords = match named {
+                    None => coords,
+                    Some(k) => match named_coords(&fb, k) {
+                        Ok(c) => c,
+                        Err(e) => return e,
+                    },
+                };
                 run_instance(fb, ab, axes.len(), &coords)
             } else {
-                run_normalize(&fb, ab.as_deref(), &coords)
+                run_normalize(&fb, ab.as_deref(), &coords, named)
             }
         }
     }));
@@ -454,6 +507,29 @@ fn gen_shape(rng: &mut Rng, n: usize, allow_bad: bool) -> Shape {
     sh
 }
 
+/// in 1/6 of the cases the user tuple is one of the table's own named instances: mostly an existing record that
+/// holds all its coordinates (with and without postScriptNameID, or larger), sometimes one past the last
+/// record or a record too small for the axis count
+fn with_named_instance(rng: &mut Rng, n: usize, sh: &mut Shape) -> Option<u64> {
+    if !rng.chance(1, 6) {
+        return None;
+    }
+    if rng.chance(5, 6) {
+        sh.icnt = 1 + rng.below(4) as i64;
+        sh.isz = 4 + 4 * n as i64 + *rng.pick(&[0, 0, 2, 2, 3, 8]);
+        Some(rng.below(sh.icnt as u64))
+    } else {
+        Some(rng.below(sh.icnt.max(0) as u64 + 1))
+    }
+}
+
+fn named_line(line: String, named: Option<u64>) -> String {
+    match named {
+        None => line,
+        Some(k) => format!("{}|@{}", &line[..line.rfind('|').unwrap()], k),
+    }
+}
+
 fn gen_axis_count(rng: &mut Rng) -> usize {
     match rng.below(12) {
         0 => 0,
@@ -496,16 +572,18 @@ pub fn gen(rng: &mut Rng) -> String {
         // any layout through FvarTable::normalize
         8..=13 => {
             let n = gen_axis_count(rng);
-            let sh = gen_shape(rng, n, true);
+            let mut sh = gen_shape(rng, n, true);
+            let named = with_named_instance(rng, n, &mut sh);
             let tags = rng.chance(1, 3);
-            format!("F|{}|{}", sh.to_line(), gen_tuple_case(rng, n, tags))
+            named_line(format!("F|{}|{}", sh.to_line(), gen_tuple_case(rng, n, tags)), named)
         }
         // the same through variations::instance
         14..=16 => {
             let n = gen_axis_count(rng);
             let bad = rng.chance(1, 3);
-            let sh = if rng.chance(1, 3) { CANONICAL } else { gen_shape(rng, n, bad) };
-            format!("I|{}|{}", sh.to_line(), gen_tuple_case(rng, n, true))
+            let mut sh = if rng.chance(1, 3) { CANONICAL } else { gen_shape(rng, n, bad) };
+            let named = with_named_instance(rng, n, &mut sh);
+            named_line(format!("I|{}|{}", sh.to_line(), gen_tuple_case(rng, n, true)), named)
         }
         17 | 18 => gen_segment_case(rng),
         _ => {
